@@ -29,6 +29,7 @@ type world struct {
 	src     map[string][]byte
 	modsets map[*ssa.Function]*modset
 	libFrames map[string]bool
+	stale     map[string]bool // contracts whose header no longer matches the function
 	overlay map[string][]byte
 }
 
@@ -46,7 +47,7 @@ func loadWorld(patterns []string, overlay map[string][]byte) (*world, error) {
 		return nil, err
 	}
 	w := &world{pkgs: map[string]*packages.Package{}, spkgs: map[string]*ssa.Package{}, allTPkg: map[string]*types.Package{},
-		typeIDs: map[string]int{}, typeOf: map[int]types.Type{}, src: map[string][]byte{}, modsets: map[*ssa.Function]*modset{}, overlay: overlay, libFrames: map[string]bool{}}
+		typeIDs: map[string]int{}, typeOf: map[int]types.Type{}, src: map[string][]byte{}, modsets: map[*ssa.Function]*modset{}, overlay: overlay, libFrames: map[string]bool{}, stale: map[string]bool{}}
 	if len(pkgs) == 0 {
 		return nil, fmt.Errorf("no packages")
 	}
